@@ -9,7 +9,7 @@ PROP = "C18"
 LEVEL = "exploration"
 RULE = ("seeded trees of empty, single-block and multi-block files (2..64 blocks) copied with --fsync by both drivers with workers 1..16 "
         "under supervisor schedules (free, lifo: first queued block finishes last, pct, workers-first, walker-first, jitter), also with "
-        "the clone ioctl emulated as successful and with short copy_file_range returns. Offline monitor over the system-call trace, per "
+        "the clone ioctl emulated as successful, with short copy_file_range returns and with --ownership whose fchown is refused (a tolerated failure). Offline monitor over the system-call trace, per "
         "destination inode: there must be a successful fsync/fdatasync whose *entry* follows the *return* of every data-modifying call "
         "(copy_file_range, write, pwrite64, ftruncate, FICLONE) on that inode, for every regular file copied, when the run exits 0. "
         "distinct_nontrivial = distinct (driver, workers, schedule, blocks-per-file class, policy, interleaving signature)")
@@ -71,9 +71,20 @@ def run_case(case):
             rules.append({"id": "r", "sys": "copy_file_range", "under": root + "/", "action": "fault", "errno": 18})
         elif case["policy"] == "cfr-short":
             rules.append({"id": "s", "sys": "copy_file_range", "under": root + "/", "action": "short", "len": "half"})
+        extra = list(case.get("extra", []))
+        import random as _r2
+        if _r2.Random(case["plan"]["sched_seed"] ^ 0x5a5a).random() < 0.15:
+            # a step that may fail without failing the copy does fail (ownership cannot be handed over: an unprivileged copy of somebody
+            # else's files, a filesystem without owners); the sync that was asked for is still due
+            extra = [x for x in extra if x != "--ownership"] + ["--ownership"]
+            rules.append({"id": "own", "sys": "fchown", "under": root + "/", "action": "fault", "errno": 1})
+            for e in case["spec"]:
+                if e["k"] == "f":
+                    os.lchown(os.path.join(root, e["p"]), 1234, 4321)      # (a destination that already has the source's owner is not chowned)
+            res["counters"]["runs-with-refused-chown"] = 1
         plan = dict(case["plan"])
         plan.update({"log_mode": "full", "rules": rules, "pct_horizon": 600})
-        args = ["--driver", case["driver"], "-w", str(case["workers"]), "--block-size", str(case["bs"])] + (["--fsync"] if case["use"] else []) + case.get("extra", []) + (["-r", "src", "dst"] if not case.get("single") else [case["single"], "dst-file"])
+        args = ["--driver", case["driver"], "-w", str(case["workers"]), "--block-size", str(case["bs"])] + (["--fsync"] if case["use"] else []) + extra + (["-r", "src", "dst"] if not case.get("single") else [case["single"], "dst-file"])
         if case.get("single") and case.get("overwrite"):
             tree.materialize(root, [{"p": "dst-file", "k": "f", "size": 123456, "seed": 5, "segs": None}])
         if case.get("vialink"):
@@ -88,6 +99,8 @@ def run_case(case):
         if run.verdict != "exited":
             res["inconc"].append("run-" + run.verdict)
             return res
+        if any(x["id"] == "own" for x in rules):
+            res["counters"]["refused-chown-calls"] = run.rule("own")["applied"]
         if not run.exit0:
             res["counters"]["nonzero-exit"] = 1
             return res
